@@ -476,13 +476,16 @@ func (s *LinearState) Clear(ctx *Context) error {
 	if err := s.remHooks(ctx); err != nil {
 		return err
 	}
-	_, err := s.store.Clear(ctx, s.Name)
+	if _, err := s.store.Clear(ctx, s.Name); err != nil {
+		// What is still stored is still ours.
+		return err
+	}
 	// Maybe protect the store (above), too.
 	s.slock(ctx, false)
 	s.Facts = make(map[string]RawFact)
 	s.cachedRules = make(map[string]*Rule)
 	s.sunlock(ctx, false)
-	return err
+	return nil
 }
 
 func (s *LinearState) Delete(ctx *Context) error {
@@ -490,13 +493,16 @@ func (s *LinearState) Delete(ctx *Context) error {
 	if err := s.remHooks(ctx); err != nil {
 		return err
 	}
-	err := s.store.Delete(ctx, s.Name)
+	if err := s.store.Delete(ctx, s.Name); err != nil {
+		// What is still stored is still ours.
+		return err
+	}
 	// Maybe protect the store (above), too.
 	s.slock(ctx, false)
 	s.Facts = make(map[string]RawFact)
 	s.cachedRules = make(map[string]*Rule)
 	s.sunlock(ctx, false)
-	return err
+	return nil
 }
 
 func (s *LinearState) Get(ctx *Context, id string) (Map, error) {
